@@ -120,8 +120,9 @@ taskreport {report_id} "{report_id}" {{
 }}
 """
 
-    # Read original file first: if it cannot be read (or decoded) nothing has been created yet
-    with open(tjp_path) as f:
+    # Read original file first: if it cannot be read (or decoded) nothing has been created yet.
+    # Project files are UTF-8, whatever the locale of the caller says.
+    with open(tjp_path, encoding="utf-8") as f:
         original_content = f.read()
 
     # Create temporary file with random suffix (safe for concurrent execution)
@@ -130,7 +131,7 @@ taskreport {report_id} "{report_id}" {{
 
     # Write combined content and close file descriptor
     try:
-        with os.fdopen(temp_fd, "w") as f:
+        with os.fdopen(temp_fd, "w", encoding="utf-8") as f:
             # Include original file
             # (escaped: a name with a line break or undecodable bytes must stay inside the comment)
             f.write(f"# Original file: {ascii(str(tjp_path))}\n")
@@ -281,7 +282,9 @@ def report(ctx: click.Context, tjp_file: Optional[str], output_csv: bool, output
             if verbose:
                 logger.debug("Reading .tjp content from stdin")
 
-            stdin_content = sys.stdin.read()
+            # The bytes as they arrive: they are what the report_id is the hash of, and their
+            # meaning (UTF-8) does not depend on the locale or PYTHONIOENCODING
+            stdin_content = sys.stdin.buffer.read()
 
             if not stdin_content.strip():
                 raise FileNotFoundError("No input provided on stdin")
@@ -291,7 +294,7 @@ def report(ctx: click.Context, tjp_file: Optional[str], output_csv: bool, output
             stdin_temp_file = Path(temp_path)
 
             # Write content and close file descriptor
-            with os.fdopen(temp_fd, "w") as f:
+            with os.fdopen(temp_fd, "wb") as f:
                 f.write(stdin_content)
 
             tjp_path = stdin_temp_file
@@ -374,7 +377,7 @@ def report(ctx: click.Context, tjp_file: Optional[str], output_csv: bool, output
             logger.debug("Reading report from: %s", primary_output)
 
         # Read the file content
-        with open(primary_output) as f:
+        with open(primary_output, encoding="utf-8") as f:
             report_content = f.read()
 
         # Replace report_id with SHA256 hash for JSON output
@@ -399,7 +402,7 @@ def report(ctx: click.Context, tjp_file: Optional[str], output_csv: bool, output
                 raise ReportGenerationError(f"Output file already exists: {output_path}\nUse --force to overwrite.")
 
             # Write to specified file
-            with open(output_path, "w") as f:
+            with open(output_path, "w", encoding="utf-8") as f:
                 f.write(report_content)
 
             if not quiet:
